@@ -63,6 +63,9 @@ def run(rep, tier):
         rep.floor("C03.arith", "arithmetic asserts in scope", n, 100)
         rep.call(validators.crop_f64, rep, prog, "C03.crop-validate")
         rep.call(validators.validators_no_panic, rep, prog, "C03.validators-no-panic")
+        # `chunks_exact(0)` panics: the owned containers take the zero-width branch by the WIDTH
+        from . import c13 as _c13
+        rep.call(_c13.typed_image_rows, rep, prog, "C03.view-rows")
         rep.call(validators.crop_u32, rep, prog, "C03.crop-validate-u32")
         rep.call(validators.constructors_validate, rep, prog, "C03.invariants")
         # the dynamic images unwrap the typed view of a buffer their constructor accepted
